@@ -213,6 +213,7 @@ def model_output(case):
         f.write("From VG Require Import Corr.Run.\nOpen Scope string_scope.\nOpen Scope Z_scope.\n")
         f.write('Definition r := Eval vm_compute in run (h "%s") (%s).\nPrint r.\n' % (hexname(case["suite"]), vterm(case["in"])))
         f.write('Definition m := Eval vm_compute in monitor (h "%s") (%s) (%s).\nPrint m.\n' % (hexname(case["suite"]), vterm(case["in"]), vterm(case["out"])))
+        f.write('Definition dg := Eval vm_compute in diag (h "%s") (%s) (%s).\nPrint dg.\n' % (hexname(case["suite"]), vterm(case["in"]), vterm(case["out"])))
     p = run(["coqc", "-Q", COQ, "VG", path], cwd=d, timeout=600)
     return re.sub(r"\s+", " ", p.stdout).strip()[:4000]
 
